@@ -1,3 +1,3 @@
 fn main() {
-    std::process::exit(vharness::cli::main_with(vec![]));
+    std::process::exit(vharness::cli::main_with(vharness::props::registry_mip()));
 }
